@@ -194,7 +194,11 @@ pub fn run_c07(chk: &Check, tier: Tier) {
     let all_vals: Vec<u16> = (0..16384).collect();
     for (i, &c) in channels.iter().enumerate() {
         // reachable states of channel c: the complete concrete fixpoint of the real scanner
-        let sys = c08_system("C07", c, Report::default(), &all_values());
+        let mut sys = c08_system("C07", c, Report::default(), &all_values());
+        if i == 0 {
+            // "whatever it has been fed before" includes many resets
+            sys.storms = vec![(256, false), (65536, false), (65536, true)];
+        }
         let out = xs::explore(&sys, &Limits::default());
         engine::record(chk, &sys, &out, None);
         let states: Vec<ControlChange14BitMessageScanner> = out.nodes.iter().map(|n| n.state.sc).collect();
@@ -209,4 +213,21 @@ pub fn run_c07(chk: &Check, tier: Tier) {
         chk.push("inversion", json!({"channel": c, "prior_states": states.len(), "state_x_message_cases": n}));
     }
     chk.sample(json!({"prior_state": "last MSB = (cn 5, 99) on the channel", "message": "ch 0, cn 6, value 8193", "feeds": ["CC 6 =64 -> None", "CC 38 =1 -> Some(original)"]}));
+}
+
+/// Configuration B (no default features): the constructor's panic condition, accessors and
+/// encoder for every message, and the inversion from every reachable state on one channel over
+/// boundary values. (The statement does not depend on the feature configuration; the code does.)
+pub fn run_c07_nostd(chk: &Check) {
+    chk.rule("the same encoder sweep (all 16x32x16384 messages, all 16x128 controller numbers for the constructor's panic condition) in a build without the std feature, plus the inversion from every reachable concrete scanner state of channel 7 over all 32 controllers x boundary values");
+    c07_encoder(chk);
+    let mut sys = c08_system("C07", 7, Report::default(), &all_values());
+    sys.storms = vec![(256, false), (65536, false)];
+    let out = xs::explore(&sys, &Limits::default());
+    engine::record(chk, &sys, &out, None);
+    let states: Vec<ControlChange14BitMessageScanner> = out.nodes.iter().map(|n| n.state.sc).collect();
+    let all_ctrl: Vec<u8> = (0..32).collect();
+    let n = c07_inversion(chk, 7, &states, &all_ctrl, &boundary14());
+    chk.add_eval(n);
+    chk.sample(json!({"configuration": "no default features", "call": "ControlChange14BitMessage::new(ch 0, cn 32, 0)", "required": "panic"}));
 }
